@@ -757,7 +757,9 @@ func (s *Store[H]) ensureInit(headers []H) {
 	}
 
 	if headPtr := s.contiguousHead.Load(); headPtr == nil {
-		head := headers[len(headers)-1]
+		// start from the first header, not the last one: the batch may have gaps, and the head must not
+		// be placed past one; advanceHead walks it up over the contiguous run right after
+		head := headers[0]
 		if s.contiguousHead.CompareAndSwap(headPtr, &head) {
 			s.heightSub.Init(head.Height())
 			log.Debugw("initialized head", "height", head.Height())
